@@ -35,6 +35,16 @@ package samlidp
 //@ import saml "github.com/crewjam/saml"
 //@ go func serverConfigured(s *Server) bool { return s.Store != nil && s.logger != nil }
 
+//@ -- the constructor owes what every handler takes for granted (the `cfg` preconditions below): with or without the
+//@ -- optional Options.Logger, the server and the IdP it embeds both have a logger - the refusal paths of the IdP log
+//@ -- before they answer, and a nil logger there is a request that gets a panic instead of its 4xx
+//@ import logger "github.com/crewjam/saml/logger"
+//@ contract New
+//@ requires[cfg] store: opts.Store != nil
+//@ requires[cfg] default_logger: logger.DefaultLogger != nil
+//@ ensures[C19,C09] configured: err == nil ==> result != nil && serverConfigured(result) && result.IDP.Logger != nil &&
+//@    result.Store == opts.Store && result.serviceProviders != nil && result.IDP.SessionProvider != nil && result.IDP.ServiceProviderProvider != nil
+
 //@ contract (*Server).GetSession
 //@ requires[cfg] s: serverConfigured(s)
 //@ requires[cfg] r: r != nil && r.URL != nil && req != nil && req.IDP != nil
@@ -103,6 +113,10 @@ package samlidp
 //@ -- source is an environment fault and not counted
 //@ contract randomBytes
 //@ requires n: n >= 0
+//@ -- the bytes are the caller's own: not a scratch buffer that goes back to a pool while the caller still encodes them
+//@ -- (two requests would then share, and overwrite, each other's identifiers)
+//@ ghost func allocatedHereBytes(b []byte) bool
+//@ assert@return[C19,C20] #each (out []byte) own_memory: allocatedHereBytes(out)
 //@ ensures[C19] length: len(result) == n
 //@ assert@call[C19] io.ReadFull #1 (r io.Reader, buf []byte) uses rv []byte fills_all_from_configured_source:
 //@    r == saml.RandReader && sameBytes(buf, rv) && len(buf) == n
@@ -114,7 +128,9 @@ package samlidp
 //@ go func registered(s *Server, id string) bool { _, ok := s.serviceProviders[id]; return ok }
 //@ contract (*Server).HandlePutService
 //@ -- after a successful update the new entity ID is registered and the one this service name had before is not
-//@ assert@call[C19] WriteHeader #1 (rw http.ResponseWriter, code int) uses previous Service, previousErr error, service Service registry_in_step:
+//@ -- (C08: whether an assertion leaves encrypted is decided on the registered metadata - a registry that lags behind the
+//@ -- store keeps answering from a descriptor without the key the provider has published since)
+//@ assert@call[C19,C08] WriteHeader #1 (rw http.ResponseWriter, code int) uses previous Service, previousErr error, service Service registry_in_step:
 //@    registered(s, service.Metadata.EntityID) &&
 //@    (previousErr == nil && previous.Metadata.EntityID != service.Metadata.EntityID ==> !registered(s, previous.Metadata.EntityID))
 //@ -- the registry follows the store, never the other way round: entries change only after the store accepted the write,
